@@ -669,6 +669,12 @@ class Parser:
                 if tok.txt == '{':
                     # {...} protects space and ','
                     seq = self.arg_buffer(buf, 0).all()
+                    if buf.cur() is tok:
+                        # no closing '}': arg_buffer() has pushed back all
+                        # tokens; take '{' as normal token, else we loop forever
+                        val.append(tok)
+                        tok = buf.next()
+                        continue
                     if len(seq) == 1 and type(seq[0]) is defs.VoidToken:
                         # this was an empty {}
                         seq = []
